@@ -615,3 +615,179 @@ def variants(world, tier="quick", only=None):
     if only:
         extra = [v for v in extra if any(o in v.name for o in only)]
     return out + extra
+
+
+# ---------------------------------------------------------------------------
+# the operator table: every standard function name is bound to the constructor that denotes it
+# (a static obligation decided exactly on the AST of SmtLibParser.__init__; what the constructors
+#  denote is C06)
+# ---------------------------------------------------------------------------
+import ast as _ast
+
+STANDARD_TABLE = {
+    # Core
+    "not": "Not", "and": "And", "or": "Or", "xor": "Xor", "=>": "Implies", "ite": "Ite", "distinct": "AllDifferent",
+    "=": "_equals_or_iff",
+    # Ints / Reals / Reals_Ints
+    "+": "Plus", "*": "Times", "-": "_minus_or_uminus", "/": "_division", "div": "_int_division",
+    "<": "LT", "<=": "LE", ">": "GT", ">=": "GE", "to_real": "ToReal",
+    # FixedSizeBitVectors + the QF_BV logic's abbreviations
+    "concat": "BVConcat", "bvnot": "BVNot", "bvneg": "BVNeg", "bvand": "BVAnd", "bvor": "BVOr", "bvxor": "BVXor",
+    "bvnand": "BVNand", "bvnor": "BVNor", "bvxnor": "BVXnor", "bvcomp": "BVComp",
+    "bvadd": "BVAdd", "bvsub": "BVSub", "bvmul": "BVMul", "bvudiv": "BVUDiv", "bvurem": "BVURem", "bvsdiv": "BVSDiv",
+    "bvsrem": "BVSRem", "bvsmod": "BVSMod", "bvshl": "BVLShl", "bvlshr": "BVLShr", "bvashr": "BVAShr",
+    "bvult": "BVULT", "bvule": "BVULE", "bvugt": "BVUGT", "bvuge": "BVUGE", "bvslt": "BVSLT", "bvsle": "BVSLE",
+    "bvsgt": "BVSGT", "bvsge": "BVSGE", "bv2nat": "BVToNatural",
+    # ArraysEx
+    "select": "Select", "store": "Store",
+    # Strings (2.5 names as used by pySMT)
+    "str.len": "StrLength", "str.++": "StrConcat", "str.at": "StrCharAt", "str.contains": "StrContains",
+    "str.indexof": "StrIndexOf", "str.replace": "StrReplace", "str.substr": "StrSubstr", "str.prefixof": "StrPrefixOf",
+    "str.suffixof": "StrSuffixOf", "str.to.int": "StrToInt", "int.to.str": "IntToStr",
+    # binders and syntax
+    "let": "_enter_let", "!": "_enter_annotation", "forall": "_enter_quantifier", "exists": "_enter_quantifier",
+    "_": "_smtlib_underscore", "as": "_enter_smtlib_as",
+}
+EXTENSIONS = {"pow": "Pow", "<->": "Iff"}        # not SMT-LIB; must at least be what their name says
+
+
+def read_operator_table(repo):
+    """-> {smt name: constructor / handler name} from the AST of SmtLibParser.__init__"""
+    fi = repo.method(PARSER, "__init__")
+    partials, table = {}, {}
+    for n in _ast.walk(fi.node):
+        target = None
+        if isinstance(n, _ast.Assign) and len(n.targets) == 1:
+            target = n.targets[0]
+        elif isinstance(n, _ast.AnnAssign) and n.value is not None:
+            target = n.target
+        if isinstance(target, _ast.Attribute) and isinstance(target.value, _ast.Name) and target.value.id == "self":
+            tgt = target.attr
+            v = n.value
+            # self.X = functools.partial(fix_real, mgr.Y)
+            if isinstance(v, _ast.Call) and _ast.unparse(v.func).endswith("partial") and len(v.args) == 2 \
+                    and isinstance(v.args[1], _ast.Attribute):
+                partials[tgt] = v.args[1].attr
+            if tgt == "interpreted" and isinstance(v, _ast.Dict):
+                for k, val in zip(v.keys, v.values):
+                    if not isinstance(k, _ast.Constant):
+                        continue
+                    if isinstance(val, _ast.Call) and _ast.unparse(val.func) == "self._operator_adapter" and len(val.args) == 1 \
+                            and isinstance(val.args[0], _ast.Attribute):
+                        a = val.args[0]
+                        owner = _ast.unparse(a.value)
+                        name = a.attr
+                        if owner == "self" and name in partials:
+                            name = partials[name]
+                        table[k.value] = name
+                    elif isinstance(val, _ast.Attribute):
+                        table[k.value] = val.attr
+                    else:
+                        table[k.value] = _ast.unparse(val)
+    return table
+
+
+class OperatorTableVariant(Variant):
+    prop_ids = ("C08",)
+    qualname = PARSER + ".__init__"
+    name = "static:operator-table"
+
+    def __init__(self, world):
+        self.world = world
+
+    def setup(self, ex):
+        self.table = read_operator_table(self.world.repo)
+        return Builtin("static-scan", lambda exx, a, kw: None), [], {}
+
+    def check(self, ex, outcome):
+        goals = [("table-found", z3.BoolVal(len(self.table) > 40))]
+        for name, want in sorted(list(STANDARD_TABLE.items()) + list(EXTENSIONS.items())):
+            goals.append(("operator-table:%s-is-%s" % (name, want), z3.BoolVal(self.table.get(name) == want)))
+        for name in sorted(self.table):
+            if name not in STANDARD_TABLE and name not in EXTENSIONS:
+                goals.append(("operator-table:no-unknown-entry:%s" % name, z3.BoolVal(False)))
+        return goals
+
+    def witness(self, model, ex):
+        return {"table": {k: v for k, v in self.table.items() if STANDARD_TABLE.get(k, EXTENSIONS.get(k)) != v}}
+
+
+_base_variants8b = variants
+
+
+def variants(world, tier="quick", only=None):
+    out = _base_variants8b(world, tier, only)
+    extra = [OperatorTableVariant(world)]
+    if only:
+        extra = [v for v in extra if any(o in v.name for o in only)]
+    return out + extra
+
+
+class UnderscoreVariant(Variant):
+    """(_ op i j) heads: the function built for the indexed operator applies the standard's operator with the
+    indices in the standard's order ((_ extract HIGH LOW); (_ bvN W) is the literal of value N and width W)"""
+    prop_ids = ("C08", "C09")
+    qualname = PARSER + "._smtlib_underscore"
+
+    def __init__(self, world, op, idx):
+        self.world, self.op, self.idx = world, op, idx
+        self.name = "indexed:(_ %s %s)" % (op, " ".join(map(str, idx)))
+
+    def setup(self, ex):
+        W = self.world
+        env = core.make_env(ex, W)
+        for c in (Consume(), ConsumeMaybe()):
+            c.world = W
+            W.contracts[c.qualname] = c
+        ex.ghost["tokens"] = [self.op] + [str(i) for i in self.idx]
+        self.parser = Obj(PARSER, {"env": env, "cache": None, "logic": None}, tag="parser")
+        self.stack = [[]]
+        fi = W.repo.func(self.qualname)
+        return W.wrap_func(fi, fi.module, bound=self.parser), [self.stack, Obj(TOK, {"pos_info": None}), "_"], {}
+
+    def check(self, ex, outcome):
+        kind, r = outcome
+        W = self.world
+        if kind == "raise":
+            return [("no-exception", z3.BoolVal(False))]
+        top = self.stack[-1]
+        if len(top) != 1:
+            return [("one-handler-scheduled", z3.BoolVal(False))]
+        fun = W.call(ex, top[0], [], {}, None)
+        if self.op.startswith("bv"):
+            v, w = int(self.op[2:]), self.idx[0]
+            want = W.mk_term(S.BV_CONSTANT, [], [z3.IntVal(v), z3.IntVal(w)])
+            return [("denotes-the-literal", (fun == want) if is_node(fun) else z3.BoolVal(False))]
+        x = z3.Const("operand", Node)
+        W.touch(ex, x)
+        wx = 8
+        ex.assume(S.type_of(x) == S.BVT(wx))
+        res = W.call(ex, fun, [x], {}, None)
+        if not is_node(res):
+            return [("returns-node", z3.BoolVal(False))]
+        if self.op == "extract":
+            hi, lo = self.idx
+            want = W.mk_term(S.BV_EXTRACT, [x], [z3.IntVal(hi - lo + 1), z3.IntVal(lo), z3.IntVal(hi)])
+        elif self.op in ("zero_extend", "sign_extend"):
+            K = S.BV_ZEXT if self.op == "zero_extend" else S.BV_SEXT
+            want = W.mk_term(K, [x], [z3.IntVal(wx + self.idx[0]), z3.IntVal(self.idx[0])])
+        elif self.op in ("rotate_left", "rotate_right"):
+            K = S.BV_ROL if self.op == "rotate_left" else S.BV_ROR
+            want = W.mk_term(K, [x], [z3.IntVal(wx), z3.IntVal(self.idx[0])])
+        else:
+            return []
+        return [("applies-the-indexed-operator", res == want)]
+
+
+_base_variants8c = variants
+
+
+def variants(world, tier="quick", only=None):
+    out = _base_variants8c(world, tier, only)
+    extra = [UnderscoreVariant(world, "extract", (6, 2)), UnderscoreVariant(world, "extract", (3, 3)),
+             UnderscoreVariant(world, "zero_extend", (3,)), UnderscoreVariant(world, "sign_extend", (5,)),
+             UnderscoreVariant(world, "rotate_left", (3,)), UnderscoreVariant(world, "rotate_right", (1,)),
+             UnderscoreVariant(world, "bv5", (4,)), UnderscoreVariant(world, "bv0", (1,))]
+    if only:
+        extra = [v for v in extra if any(o in v.name for o in only)]
+    return out + extra
